@@ -60,16 +60,25 @@ type variant struct {
 	lLast          int64
 	lChanges       int
 	lFirstFrameTS0 bool
+	// last lookup of the first-send table
+	cacheTS    uint32
+	cacheFirst int64
 }
 
 func (x *variant) feed(idx int64, ts uint32, plen int32, hdr int, clk int64, first map[uint32]int64) (ooo, multi bool) {
 	x.n++
 	x.oct += uint64(plen)
 	x.hdr += uint64(hdr)
-	f, seen := first[ts]
-	if !seen {
-		first[ts] = clk
-		f = clk
+	var f int64
+	seen := false
+	if x.has && ts == x.cacheTS {
+		f, seen = x.cacheFirst, true
+	} else {
+		if f, seen = first[ts]; !seen {
+			first[ts] = clk
+			f = clk
+		}
+		x.cacheTS, x.cacheFirst = ts, f
 	}
 	multi = seen
 	if !x.has || idx > x.newest {
@@ -161,10 +170,19 @@ func (m *monitor) onSend(si int, sd *send, v int64, hdr int) {
 		}
 	}
 	sm.lastTS = sd.ts
+	// the own-packets model is identical to `all` until the first foreign packet: it is
+	// forked at that moment (state before this packet) and fed separately from then on
+	if sd.foreign && sm.foreign == 0 {
+		sm.own = sm.all
+		sm.firstOwn = make(map[uint32]int64, len(sm.firstAll))
+		for k, v := range sm.firstAll {
+			sm.firstOwn[k] = v
+		}
+	}
 	ooo, multi := sm.all.feed(sd.idx, sd.ts, sd.plen, hdr, clk, sm.firstAll)
 	if sd.foreign {
 		sm.foreign++
-	} else {
+	} else if sm.foreign > 0 {
 		sm.own.feed(sd.idx, sd.ts, sd.plen, hdr, clk, sm.firstOwn)
 	}
 	if ooo {
@@ -277,6 +295,9 @@ func decide(c *vf.Case, s *scenario, mon *monitor, w *recWriter) {
 			continue
 		}
 		st := &o.snap
+		if st.foreign == 0 {
+			st.own = st.all // no foreign packet so far: the two readings coincide
+		}
 		sm := mon.bySSRC[o.sr.SSRC]
 		if !st.bound {
 			c.Violation("report/ssrc-not-a-bound-stream", "%s: sender report for SSRC %d at %dns, but that stream is bound only later", ctx, o.sr.SSRC, o.v)
@@ -298,6 +319,9 @@ func decide(c *vf.Case, s *scenario, mon *monitor, w *recWriter) {
 		p.reports++
 		p.ooo, p.multi = st.ooo, st.multi
 		where := fmt.Sprintf("%s; ssrc=%d rate=%d report#%d at %dns", ctx, o.sr.SSRC, sm.scn.rate, p.reports, o.v)
+
+		c.Logf("report ssrc=%d at=%dns: packets=%d octets=%d ntp=%#x rtp=%d | model: packets=%d octets=%d newest idx=%d refTS(seq order)=%d first sent at clk %dns, refTS(send order)=%d run since clk %dns",
+			o.sr.SSRC, o.v, o.sr.PacketCount, o.sr.OctetCount, o.sr.NTPTime, o.sr.RTPTime, st.all.n, st.all.oct, st.all.newest, st.all.sTs, st.all.sFirst, st.all.lTs, st.all.lRun)
 
 		// --- counts
 		if pc := o.sr.PacketCount; pc != uint32(st.all.n) && pc != uint32(st.own.n) {
@@ -402,10 +426,10 @@ func decide(c *vf.Case, s *scenario, mon *monitor, w *recWriter) {
 		case (!s.useLatest && x.sFirstFrameTS0) || (s.useLatest && x.lFirstFrameTS0):
 			sig = "rtptime/first-frame-has-timestamp-0"
 			why = " [input class: the reference is the first frame the stream ever sent and its RTP timestamp is 0]"
-		case !s.useLatest && (matches(x.lTs, x.lRun) || matches(x.lTs, x.lFirst)):
+		case !s.useLatest && x.lTs != x.sTs && (matches(x.lTs, x.lRun) || matches(x.lTs, x.lFirst)):
 			sig = "rtptime/out-of-order-send-moved-reference"
 			why = fmt.Sprintf(" [equals the extrapolation from the packet sent LAST (ts=%d), which was out of order, although use-latest-packet is off]", x.lTs)
-		case s.useLatest && matches(x.sTs, x.sFirst):
+		case s.useLatest && x.lTs != x.sTs && matches(x.sTs, x.sFirst):
 			sig = "rtptime/use-latest-packet-not-honoured"
 			why = fmt.Sprintf(" [equals the extrapolation from the highest-numbered packet (ts=%d) although use-latest-packet is set]", x.sTs)
 		case (!s.useLatest && matches(x.sTs, x.sLast)) || (s.useLatest && matches(x.lTs, x.lLast)):
